@@ -4,7 +4,11 @@ let () =
   | _ :: "match" :: file :: _ -> Match_cmd.run_file file
   | _ :: "utf32" :: file :: rest -> Utf32_cmd.run_file file (match rest with "0" :: _ -> false | _ -> true)
   | _ :: "c15" :: file :: _ -> Pat_cmd.run_file file
+  | _ :: "pattern-gen" :: file :: _ -> Pattern_cmd.gen_file file
+  | _ :: "pattern" :: file :: fx :: rest -> Pattern_cmd.run_file file (fx <> "pinned") (match rest with s :: _ -> Some s | [] -> None)
+  | _ :: "pattern-oracle" :: file :: impl :: _ -> Pattern_cmd.oracle_file file impl
   | _ :: "layout" :: file :: _ -> Match_cmd.layout_file file
+  | _ :: "nucleo" :: file :: table :: _ -> Nucleo_cmd.run_file file table
   | _ :: "boxcar" :: file :: _ -> Boxcar_cmd.run_file file
   | _ :: "facts" :: file :: impl :: brute :: _ -> Match_cmd.facts_file file impl (int_of_string brute)
   | _ -> prerr_endline "usage: driver chars-sweep LO HI | match FILE | facts FILE IMPLOUT BRUTEMAX"; exit 2
